@@ -24,6 +24,7 @@ CHECKS = {
 }
 
 TV = "TLA+ reference semantics (Grammars.tla) evaluated by TLC on every recorded call of the real code (trace validation)"
+TVM = TV + "; semantic core model-checked against the literal definitions (MCGrammarSem.tla) and its exhaustive family replayed into the code"
 TVA = "TLA+ reference semantics (Automata.tla, GrammarCompose.tla) evaluated by TLC on every recorded call of the real code (trace validation)"
 CHECKS.update({
     "C01": dict(
@@ -31,14 +32,17 @@ CHECKS.update({
               "rules, unary cycles, recursion; all contexts up to L, viable or not, and contexts containing eos) is judged "
               "by TLC: keys = {t : PrefixWeight_Bool(G, ctx.t) # 0} plus eos iff Weight_Bool(G, ctx) # 0, where "
               "PrefixWeight is the least fixed point of the prefix-inside equations (sums over the infinitely many "
-              "completions exactly)."),
-        ref="DESIGN.md section 6 (C01)", technique=TV),
+              "completions exactly). The oracle itself is model-checked (prefix recurrence) on every grammar with <= 2 rules, and "
+              "that family, grammars with left-corner cycles through the start symbol, two bridged unary cycles, integer "
+              "vocabularies and warm LM objects are replayed into both back-ends."),
+        ref="DESIGN.md section 6 (C01)", technique=TVM),
     "C03": dict(
         text=("prefix_weight, prefix_grammar (the code's output grammar is evaluated by the oracle on all prefixes), "
               "derivatives(p)[-1].treesum(), derivative(a) as a grammar and derivative(a)(y) are judged by TLC against "
               "PrefixWeight / Weight of Grammars.tla over Sat(3)/Sat(2)/Bool (cyclic grammars, infinitely many "
-              "completions, exact by finiteness of the semiring) and exact rationals (finite languages)."),
-        ref="DESIGN.md section 6 (C03)", technique=TV),
+              "completions, exact by finiteness of the semiring) and exact rationals (finite languages). PrefixRecurrence, "
+              "PrefixEmpty and PrefixBounded are model-checked on the exhaustive small family, which is also replayed."),
+        ref="DESIGN.md section 6 (C03)", technique=TVM),
     "C04": dict(
         text=("p_next of EarleyLM, rescaled EarleyLM and CKYLM on warm and cold objects, lm(x eos), and the unnormalised "
               "next-token weights of the underlying parsers are judged by TLC against PrefixWeight/Weight/TreeSum of "
@@ -46,8 +50,11 @@ CHECKS.update({
               "a non-viable context gives all zeros, lm(x eos) = Weight(x)/Z, ntw[t] = PW(ctx.t) = parser(ctx.t). Exact "
               "rationals on grammars with finitely many derivations (values the code can only produce as floats are "
               "recorded in 2^-20 fixed point and compared with the exact oracle value in two-limb integer arithmetic); "
-              "Sat(3) with arbitrary recursion for the unnormalised identity."),
-        ref="DESIGN.md section 6 (C04)", technique=TV),
+              "Sat(3) with arbitrary recursion for the unnormalised identity. CKY.tla (incremental columns = inside weights, "
+              "outside pass = weight of the one-token extension) and the closed form for deterministic right-linear proper "
+              "grammars are model-checked; the latter judges contexts of 40-1500 tokens on float-weighted grammars."),
+        ref="DESIGN.md section 6 (C04)",
+        technique="TLA+ models CKY.tla / MCGrammarSem.tla model-checked with TLC; trace validation of recorded LM calls against Grammars.tla"),
     "C05": dict(
         text=("ParserCache.tla (the cache of memoised prefixes as a state machine; PrefixClosed, OnlyClearForgets) is "
               "model-checked and its complete state graph (all histories over prefixes <= 2, both parser kinds) is walked "
@@ -74,8 +81,12 @@ CHECKS.update({
         text=("agenda() and naive_bottom_up() charts (every nonterminal) and expected_length are judged by TLC against the "
               "least fixed point of the grammar's polynomial system (TreeSum in Grammars.tla; expectation semiring "
               "lifting for expected length): Sat(3)/Sat(2)/Bool with arbitrary recursion, exact rationals and MaxTimes on "
-              "grammars with finitely many derivations."),
-        ref="DESIGN.md section 6 (C08)", technique=TV),
+              "grammars with finitely many derivations. Treesum.tla (the agenda as a state machine: every bucket numbering "
+              "and every pop order; NoLateUpdate, Bounded, Final) is model-checked and every pop order is forced into the real "
+              "agenda through a choosing chart; histories (evaluate, add rules, evaluate again), sub-tolerance contributions "
+              "and slowly converging blocks are judged too."),
+        ref="DESIGN.md section 6 (C08)",
+        technique="TLA+ state machine Treesum.tla model-checked with TLC; pop orders replayed into the code; trace validation against Grammars.tla"),
     "C09": dict(
         text=("cfg @ fst, fst @ cfg (= cfg @ fst.T), cfg @ acceptor, cfg @ string, (cfg @ fst)(ys), (cfg @ xs).treesum() and "
               "truncate_length on random grammars x random transducers (epsilon input, deletion, insertion, eps:eps, cycles, "
@@ -93,8 +104,10 @@ CHECKS.update({
         text=("m(xs) for all strings up to L, epsremove (same weights, no epsilon arc) and total_weight on random automata with "
               "parallel arcs, epsilon arcs and epsilon cycles, several initial/final states: judged by TLC against the path-sum "
               "least fixed points AWeight/ATotal of Automata.tla over Sat(3)/Sat(2)/Bool (epsilon cycles exact), exact rationals "
-              "and MaxTimes."),
-        ref="DESIGN.md section 6 (C11)", technique=TVA),
+              "MaxTimes and the non-commutative BM2 (order of multiplication along a path). MCAutomata.tla checks the oracles "
+              "against each other on all 2304 two-state automata; histories on one automaton object are included."),
+        ref="DESIGN.md section 6 (C11)",
+        technique="TLA+ oracles model-checked (MCAutomata.tla) and evaluated by TLC on every recorded call (trace validation)"),
     "C12": dict(
         text=("Union, concatenation, star, plus, reverse, rename, renumber, spawn and the constructors lift, from_string, "
               "from_strings, zero, one (base.WFSA and field_wfsa.WFSA): the result automaton is judged by TLC on all strings up "
@@ -122,9 +135,11 @@ CHECKS.update({
               "graphs (self loops, nested cycles, isolated nodes, node names of mixed types): judged by TLC against the least "
               "fixed points of Linear.tla (K = I + K A, x = xA + b, x = Ax + b) in Sat(3)/Sat(2)/Bool, exact rationals "
               "(acyclic: finite sums; cyclic contractive: unique solution by substitution) and MaxTimes; blocks must be exactly "
-              "the SCCs in an edge-compatible order."),
+              "the SCCs in an edge-compatible order. Tarjan.tla (scc_decomposition with an explicit call stack) is model-checked "
+              "on all 512 graphs with 3 nodes for every root and successor order, and explicit visiting orders are replayed "
+              "into the real function; the non-commutative BM2 and histories on one graph object are included."),
         ref="DESIGN.md section 6 (C15)",
-        technique="TLA+ reference semantics (Linear.tla) evaluated by TLC on every recorded call (trace validation)"),
+        technique="TLA+ state machine Tarjan.tla model-checked with TLC; visiting orders replayed into the code; trace validation against Linear.tla"),
     "C16": dict(
         text=("The semiring laws and the star law are model-checked on every triple of the model carriers (MCWeights.tla); the "
               "real +, *, star, zero, one of the 8 shipped classes (singleton and freshly constructed operands, exact and float "
